@@ -30,6 +30,9 @@ package fastq
 //@   ensures result.1 == 1 <==> ((d0 || p0 == S.n) && !((d0 || p0 == S.n) && S.fault && S.pos == S.n))
 //@   ensures S.fault && S.done && S.pos == S.n ==> result.1 != nil && result.1 != 1
 //@   ensures S.pos >= p0 && S.pos <= S.n
+// completeness: four well-formed lines are accepted
+//@   ensures @C02 !d0 && p0 + 4 <= S.n && len(S.lines[p0]) > 0 && S.lines[p0][0] == '@' && len(S.lines[p0+2]) > 0 && S.lines[p0+2][0] == '+' &&
+//@             len(S.lines[p0+3]) == len(S.lines[p0+1]) ==> result.1 == nil
 
 //@ func reader.iter
 //@   props C02 C07 C18
